@@ -43,12 +43,14 @@ def frame(cols):
 train = frame({train!r})
 new = frame({new!r})
 mm = model_matrix({formula!r}, train, output={output!r}, context={{}})
-expected = list(mm.model_spec.column_names)
+subset = {subset!r}            # None: the recorded spec itself; else the terms kept by ModelSpec.subset
+spec = mm.model_spec if subset is None else mm.model_spec.subset(subset)
+expected = list(spec.column_names)
 scenario, clause = {scenario!r}, {clause!r}
 with warnings.catch_warnings(record=True) as caught:
     warnings.simplefilter("always")
     try:
-        m2 = mm.model_spec.get_model_matrix(new)
+        m2 = spec.get_model_matrix(new)
         raised = None
     except Exception as e:
         m2, raised = None, e
@@ -64,6 +66,8 @@ else:
     elif clause == "C09.lost-levels.zero-columns":
         for j in {zero_cols!r}:
             assert (dense[:, j] == 0).all(), (expected[j], dense[:, j].tolist())
+    elif clause == "C09.subset.columns":
+        assert set(expected) <= set(mm.model_spec.column_names), (expected, list(mm.model_spec.column_names))
     elif clause == "C09.gained-levels.DataMismatchWarning":
         assert any(issubclass(w.category, DataMismatchWarning) for w in caught), [str(w.category) for w in caught]
 """
@@ -250,6 +254,91 @@ def _zero_cols(columns, formula, storage, absent):
     return sorted(set(out))
 
 
+def _subsets(spec, changed):
+    """the recorded spec itself, and the specs derived from it with ModelSpec.subset: interaction terms only, main
+    effects only, all terms in reverse order (each only if it differs from the full spec and still involves the factor
+    whose kind / levels change).  Yields (tag, list-of-term-strings | None)."""
+    import re
+
+    yield "full", None
+    terms = list(spec.terms)
+    nonconst = [t for t in terms if len(t.factors) > 0]
+    if len(nonconst) < 2:
+        return
+    const = [t for t in terms if len(t.factors) == 0]
+    cands = [("subset:interactions-only", const + [t for t in nonconst if len(t.factors) >= 2]),
+             ("subset:main-effects-only", const + [t for t in nonconst if len(t.factors) == 1]),
+             ("subset:reversed", terms[::-1]),
+             ("subset:last-term-only", const + nonconst[-1:])]
+    seen = [[str(t) for t in terms]]
+    for tag, ts in cands:
+        strs = [str(t) for t in ts]
+        if strs in seen or not any(len(t.factors) for t in ts):
+            continue
+        if not any(re.search(r"(?<![A-Za-z0-9_])" + changed + r"(?![A-Za-z0-9_])", str(t)) for t in ts if len(t.factors)):
+            continue
+        seen.append(strs)
+        yield tag, strs
+
+
+def _judge_pair(res, c, key, spec, subset, sub_mode, expected, new, FactorEncodingError, DataMismatchWarning):
+    formula, output, scen = c["formula"], c["output"], c["scenario"]
+    res.case(key, True, {"formula": formula, "output": output, "scenario": scen, "a-storage": c["storage"],
+                         "spec": sub_mode, "recorded_columns": expected})
+    zero_cols = _zero_cols(expected, formula, c["storage"], c["absent"]) if (c["dummy"] and scen.startswith("lost")) else []
+    sub_tag = "" if subset is None else ":" + sub_mode
+
+    def wit(clause):
+        return {"formula": formula, "output": output, "scenario": scen, "train": c["train"], "new": c["new"],
+                "subset": subset,
+                "code": code(WITNESS.format(train=c["train"], new=c["new"], formula=formula, output=output,
+                                            scenario=scen, clause=clause, zero_cols=zero_cols, subset=subset))}
+
+    with warnings.catch_warnings(record=True) as caught:
+        warnings.simplefilter("always")
+        try:
+            m2 = spec.get_model_matrix(new)
+            raised = None
+        except Exception as e:  # noqa: BLE001 - outcome to be judged
+            m2, raised = None, e
+    where = "alone" if formula.replace(" - 1", "") in ("a", "x", "C(a)", "C(a, contr.treatment)", "C(a, contr.sum)",
+                                                        "C(a, contr.poly)") else "in-interaction-or-sum"
+    if scen.startswith("kind:"):
+        direction = scen.split(":")[1]
+        if not isinstance(raised, FactorEncodingError):
+            got = f"raised {type(raised).__name__}: {raised}" if raised is not None else \
+                f"returned a matrix with columns {list(m2.model_spec.column_names)}"
+            cls = direction + (":returned-matrix" if raised is None else ":raised-" + type(raised).__name__) + ":" + where + sub_tag
+            res.fail("C09.kind-change.must-raise-FactorEncodingError", cls,
+                     wit("C09.kind-change.must-raise-FactorEncodingError"),
+                     f"{scen} [{sub_mode}]: expected formulaic.errors.FactorEncodingError, {got}"[:600])
+        return
+    kind = "lost" if scen.startswith("lost") else ("gained" if scen.startswith("gained") else "same")
+    if raised is not None:
+        res.fail("C09.columns.unchanged", f"{kind}:raised-{type(raised).__name__}:{output}{sub_tag}", wit("C09.columns.unchanged"),
+                 f"{scen} [{sub_mode}]: {type(raised).__name__}: {raised}"[:600])
+        return
+    dense = np.asarray(m2.todense() if hasattr(m2, "todense") else m2, dtype=float)
+    names = list(m2.model_spec.column_names)
+    ok = names == expected and dense.shape == (len(new), len(expected))
+    if ok and output == "pandas":
+        ok = list(m2.columns) == expected
+    if not ok:
+        res.fail("C09.columns.unchanged", f"{kind}:{output}{sub_tag}", wit("C09.columns.unchanged"),
+                 f"{scen} [{sub_mode}]: columns {names} shape {dense.shape}, recorded columns {expected}")
+        return
+    if kind == "lost" and zero_cols:
+        bad = [expected[j] for j in zero_cols if not (dense[:, j] == 0).all()]
+        if bad:
+            res.fail("C09.lost-levels.zero-columns", f"{output}:{where}{sub_tag}", wit("C09.lost-levels.zero-columns"),
+                     f"{scen} [{sub_mode}]: columns {bad} of absent level(s) {c['absent']} are not all zero")
+    if kind == "gained":
+        if not any(issubclass(w.category, DataMismatchWarning) for w in caught):
+            res.fail("C09.gained-levels.DataMismatchWarning", f"{output}:{c['storage']}:{where}{sub_tag}",
+                     wit("C09.gained-levels.DataMismatchWarning"),
+                     f"{scen} [{sub_mode}]: warnings emitted: {[w.category.__name__ for w in caught]}")
+
+
 def _worker(cases):
     from formulaic import model_matrix
     from formulaic.errors import DataMismatchWarning, FactorEncodingError
@@ -269,59 +358,28 @@ def _worker(cases):
             res.case(key, nontrivial=False)
             res.stats[("train-failed", type(e).__name__)] += 1
             continue
-        expected = list(mm.model_spec.column_names)
-        res.case(key, True, {"formula": formula, "output": output, "scenario": scen, "a-storage": c["storage"],
-                             "train_columns": expected})
-        zero_cols = _zero_cols(expected, formula, c["storage"], c["absent"]) if (c["dummy"] and scen.startswith("lost")) else []
-
-        def wit(clause):
-            return {"formula": formula, "output": output, "scenario": scen, "train": c["train"], "new": c["new"],
-                    "code": code(WITNESS.format(train=c["train"], new=c["new"], formula=formula, output=output,
-                                                scenario=scen, clause=clause, zero_cols=zero_cols))}
-
-        with warnings.catch_warnings(record=True) as caught:
-            warnings.simplefilter("always")
+        changed = "x" if scen.startswith("kind:num->cat") else "a"
+        for sub_mode, subset in _subsets(mm.model_spec, changed):
+            if subset is not None and c.get("quick") and output == "numpy":
+                continue  # quick tier: derived specs under pandas and sparse output only
             try:
-                m2 = mm.model_spec.get_model_matrix(new)
-                raised = None
-            except Exception as e:  # noqa: BLE001 - outcome to be judged
-                m2, raised = None, e
-        where = "alone" if formula.replace(" - 1", "") in ("a", "x", "C(a)", "C(a, contr.treatment)", "C(a, contr.sum)",
-                                                            "C(a, contr.poly)") else "in-interaction-or-sum"
-        if scen.startswith("kind:"):
-            direction = scen.split(":")[1]
-            if not isinstance(raised, FactorEncodingError):
-                got = f"raised {type(raised).__name__}: {raised}" if raised is not None else \
-                    f"returned a matrix with columns {list(m2.model_spec.column_names)}"
-                cls = direction + (":returned-matrix" if raised is None else ":raised-" + type(raised).__name__) + ":" + where
-                res.fail("C09.kind-change.must-raise-FactorEncodingError", cls,
-                         wit("C09.kind-change.must-raise-FactorEncodingError"),
-                         f"{scen}: expected formulaic.errors.FactorEncodingError, {got}"[:600])
-            continue
-        kind = "lost" if scen.startswith("lost") else ("gained" if scen.startswith("gained") else "same")
-        if raised is not None:
-            res.fail("C09.columns.unchanged", f"{kind}:raised-{type(raised).__name__}:{output}", wit("C09.columns.unchanged"),
-                     f"{scen}: {type(raised).__name__}: {raised}"[:600])
-            continue
-        dense = np.asarray(m2.todense() if hasattr(m2, "todense") else m2, dtype=float)
-        names = list(m2.model_spec.column_names)
-        ok = names == expected and dense.shape == (len(new), len(expected))
-        if ok and output == "pandas":
-            ok = list(m2.columns) == expected
-        if not ok:
-            res.fail("C09.columns.unchanged", f"{kind}:{output}", wit("C09.columns.unchanged"),
-                     f"{scen}: columns {names} shape {dense.shape}, training columns {expected}")
-            continue
-        if kind == "lost" and zero_cols:
-            bad = [expected[j] for j in zero_cols if not (dense[:, j] == 0).all()]
-            if bad:
-                res.fail("C09.lost-levels.zero-columns", f"{output}:{where}", wit("C09.lost-levels.zero-columns"),
-                         f"{scen}: columns {bad} of absent level(s) {c['absent']} are not all zero")
-        if kind == "gained":
-            if not any(issubclass(w.category, DataMismatchWarning) for w in caught):
-                res.fail("C09.gained-levels.DataMismatchWarning", f"{output}:{c['storage']}:{where}",
-                         wit("C09.gained-levels.DataMismatchWarning"),
-                         f"{scen}: warnings emitted: {[w.category.__name__ for w in caught]}")
+                spec = mm.model_spec if subset is None else mm.model_spec.subset(subset)
+                expected = list(spec.column_names)
+            except Exception as e:  # noqa: BLE001 - subsetting itself is C10's subject; without a spec nothing to judge
+                res.case(key + (sub_mode,), nontrivial=False)
+                res.stats[("subset-failed", type(e).__name__)] += 1
+                continue
+            if not set(expected) <= set(mm.model_spec.column_names):
+                res.case(key + (sub_mode,), True)
+                res.fail("C09.columns.unchanged", "subset-introduces-columns:" + sub_mode,
+                         {"formula": formula, "output": output, "subset": subset, "train": c["train"], "new": c["new"],
+                          "code": code(WITNESS.format(train=c["train"], new=c["train"], formula=formula, output=output,
+                                                      scenario="same", clause="C09.subset.columns", zero_cols=[],
+                                                      subset=subset))},
+                         f"subset {subset} has columns {expected} not among the training columns")
+                continue
+            _judge_pair(res, c, key + (sub_mode,), spec, subset, sub_mode, expected, new, FactorEncodingError,
+                        DataMismatchWarning)
     return res.pack()
 
 
@@ -342,18 +400,25 @@ def run_bounded(ctx):
         "train-followup-pairs",
         rule="19 categorical-side formulas x {same, all 6 proper level sub-sets, 5 unseen-level mixes, 1-row and 3-row "
              "follow-ups} + kind changes (cat->num as float/int/other floats over 13 formulas; num->cat with 1..3 levels "
-             "over 8 formulas) x storage {object, category, category of ints} x output {pandas, numpy, sparse}; distinct = "
-             "(formula, output, scenario, storage); a pair is non-trivial iff the training materialization succeeds",
+             "over 8 formulas) x storage {object, category, category of ints} x output {pandas, numpy, sparse} x spec "
+             "{as recorded, ModelSpec.subset to interaction terms only / main effects only / reversed order / last term "
+             "only, when different and still involving the changed factor}; distinct = "
+             "(formula, output, scenario, storage, spec variant); a pair is non-trivial iff the training materialization succeeds",
         exhaustive=True,
         bound="levels {p,q,r}+{y,z}, 7-row training frame, formulas and scenarios as listed (fully crossed)",
     ) as b:
         rep = Reporter(ctx, b)
         cases = _cases(rng, ctx.thorough)
+        for c in cases:
+            c["quick"] = not ctx.thorough
         stats = Counter()
         merge(b, rep, pmap(_worker, chunked(cases, 32)), stats)
         failed = {k[1]: v for k, v in stats.items() if k[0] == "train-failed"}
         if failed:
             ctx.notes.append(f"bounded:train-followup-pairs: pairs skipped because the training materialization failed: {failed}")
+        sub_failed = {k[1]: v for k, v in stats.items() if k[0] == "subset-failed"}
+        if sub_failed:
+            ctx.notes.append(f"bounded:train-followup-pairs: spec variants skipped because ModelSpec.subset failed: {sub_failed}")
         rep.close()
 
     n_random = 30000 if ctx.thorough else 600
